@@ -255,6 +255,10 @@ io_status_t WebSocketMessageIOGateway :: DoInputImplementation(AbstractGatewayMe
          char c;
          const io_status_t readRet = GetDataIO()()->Read(&c, 1);  // 1 byte at a time, to avoid any chance of reading past the end of the HTTP section
          if (readRet.IsError()) {ret = readRet.GetStatus(); break;}
+         if (readRet.GetByteCount() <= 0) break;  // no more handshake bytes available right now; we'll continue when more arrive
+
+         readBytes++;
+         maxBytes--;
 
          _receivedHTTPText += c;
          if (_receivedHTTPText.EndsWith("\r\n\r\n"))
